@@ -179,7 +179,9 @@ def link_events(prog, func, inline=True):
 
 
 def _walk_stmt(st):
-    """Walk a simple statement (not into nested defs)."""
+    """Walk a simple statement (not into nested defs; a nested definition itself does nothing until it is called)."""
+    if isinstance(st, (ast.FunctionDef, ast.AsyncFunctionDef, ast.ClassDef)):
+        return
     yield st
     for x in walk_own(st):
         yield x
